@@ -41,10 +41,27 @@ func c07Options(modes []string, full bool) []ruleOpt {
 		}
 	}
 	if full {
-		// two mode actions on one rule, executed in written order
+		// two mode actions on one rule, executed in written order, with
+		// @discard/@emit written before, between and after them
+		var pairs [][]lexref.Action
 		for _, m := range modes {
-			out = append(out, ruleOpt{kind: 0, actions: []lexref.Action{{K: lexref.APop}, {K: lexref.APush, Arg: m}}})
-			out = append(out, ruleOpt{kind: 2, actions: []lexref.Action{{K: lexref.APop}, {K: lexref.ADiscard}, {K: lexref.APush, Arg: m}}})
+			pairs = append(pairs,
+				[]lexref.Action{{K: lexref.APop}, {K: lexref.APush, Arg: m}},
+				[]lexref.Action{{K: lexref.APush, Arg: m}, {K: lexref.APop}})
+			for _, m2 := range modes {
+				if m2 != m {
+					pairs = append(pairs, []lexref.Action{{K: lexref.APush, Arg: m}, {K: lexref.APush, Arg: m2}})
+				}
+			}
+		}
+		for _, pr := range pairs {
+			out = append(out, ruleOpt{kind: 0, actions: pr})
+			out = append(out, ruleOpt{kind: 1, actions: pr})
+			for k, fin := range []lexref.Action{{K: lexref.ADiscard}, {K: lexref.AEmit, Arg: "EM"}} {
+				out = append(out, ruleOpt{kind: 2 + k, actions: []lexref.Action{fin, pr[0], pr[1]}})
+				out = append(out, ruleOpt{kind: 2 + k, actions: []lexref.Action{pr[0], fin, pr[1]}})
+				out = append(out, ruleOpt{kind: 2 + k, actions: []lexref.Action{pr[0], pr[1], fin}})
+			}
 		}
 	}
 	return out
@@ -114,11 +131,14 @@ func c07Spaces(quick bool) []struct {
 			{"2modes-2x1", &c07Space{modeNames: two, perMode: [][]ruleOpt{o2, o2}, nRules: []int{2, 1}}, 0},
 			{"2modes-1x2", &c07Space{modeNames: two, perMode: [][]ruleOpt{o2, o2}, nRules: []int{1, 2}}, 0},
 			{"3modes-1x1x1", &c07Space{modeNames: three, perMode: [][]ruleOpt{o3, o3, o3}, nRules: []int{1, 1, 1}}, 0},
+			{"3modes-multi-1x1x1", &c07Space{modeNames: three, perMode: [][]ruleOpt{c07Options(three, true), o3[:6], o3[:6]}, nRules: []int{1, 1, 1}}, 0},
+			{"2modes-multi-1x1", &c07Space{modeNames: two, perMode: [][]ruleOpt{o2f, o2f}, nRules: []int{1, 1}}, 0},
 		}
 	}
 	return []fam{
 		{"2modes-2x2", &c07Space{modeNames: two, perMode: [][]ruleOpt{o2, o2}, nRules: []int{2, 2}}, 0},
-		{"2modes-2x1-multi", &c07Space{modeNames: two, perMode: [][]ruleOpt{o2f, o2f}, nRules: []int{2, 1}}, 0},
+		{"2modes-2x1-multi", &c07Space{modeNames: two, perMode: [][]ruleOpt{o2f, o2f}, nRules: []int{2, 1}}, 400000},
+		{"3modes-multi-1x1x1", &c07Space{modeNames: three, perMode: [][]ruleOpt{c07Options(three, true), c07Options(three, true), o3}, nRules: []int{1, 1, 1}}, 400000},
 		{"3modes-1x1x1", &c07Space{modeNames: three, perMode: [][]ruleOpt{o3, o3, o3}, nRules: []int{1, 1, 1}}, 0},
 		{"3modes-2x1x1", &c07Space{modeNames: three, perMode: [][]ruleOpt{o3, o3, o3}, nRules: []int{2, 1, 1}}, 600000},
 	}
